@@ -270,7 +270,13 @@ def draw_property_layers(
         if isinstance(space, OrthogonalGrid) and not isinstance(space, HexGrid):
             if "color" in portrayal:
                 data = data.T
-                normalized_data = (data - vmin) / (vmax - vmin)
+                # a degenerate colour scale (e.g. a constant layer with the default vmin / vmax)
+                # maps every cell to 0, as matplotlib's Normalize does, instead of dividing by zero
+                normalized_data = (
+                    (data - vmin) / (vmax - vmin)
+                    if vmax != vmin
+                    else np.zeros(data.shape)
+                )
                 rgba_data = np.full((*data.shape, 4), rgba_color)
                 rgba_data[..., 3] *= normalized_data * alpha
                 rgba_data = np.clip(rgba_data, 0, 1)
